@@ -297,6 +297,11 @@ def re_group_none(p, k, s, method='match'):
     return m is None or m.group(k) is None
 
 
+def shlex_quote(s):
+    import shlex
+    return shlex.quote(s)
+
+
 def emptyset(*a):
     return set()
 
